@@ -4,7 +4,7 @@
    afterwards (in fresh pages, or in the page that already contained them - case 6).
    addContiguous leaves in the queue every held byte beyond the end of the run it takes, and takes
    everything up to the first byte that is not held.  A flush skips no held byte. *)
-From GP Require Import Base C09Model C09Spec C09Seq C09Proofs C09Stream C09Flush C09Keep C09Send C09Full.
+From GP Require Import Base C09Model C09Spec C09Seq C09Proofs C09Stream C09Flush C09Keep C09Send.
 From Coq Require Import Lia ZifyBool ZifyNat.
 Ltac Zify.zify_post_hook ::= Z.div_mod_to_equations.
 Open Scope Z_scope.
@@ -245,4 +245,59 @@ Proof.
       assert (Hge : o <= e).
       { eapply (qok_cov_ge S i (p :: t) o hi e HS); [|exact Hall]. cbn [qok]. exists o. split; [lia|]. auto. }
       lia.
+Qed.
+
+(* ---------------------------------------------------------------- sendToConnection and the queue *)
+Lemma send_queue : forall v c h used r0 sid nc,
+  h_queue (sr_half (send v c h used r0 sid nc)) =
+  snd (fst (add_contiguous v (h_queue h) (sadd (cseq r0) (clen r0)))).
+Proof.
+  intros. unfold send.
+  destruct (add_pending (h_saved h) (cseq r0)) as [[[pre sl] sv1] reld].
+  destruct (add_contiguous v (h_queue h) (sadd (cseq r0) (clen r0))) as [[tk q1] nx].
+  match goal with |- context [if ?b then (length ?l, 0) else ?f] => destruct (if b then (length l, 0) else f) as [ndx kskip] end.
+  destruct (keep_conv v (skipn ndx (map CPage pre ++ r0 :: map CPage tk)) kskip) as [[sv2 alloc] pk].
+  reflexivity.
+Qed.
+
+Lemma contig_loop_incl : forall v q l tk q1 l', contig_loop v q l = (tk, q1, l') -> forall p, In p q1 -> In p q.
+Proof.
+  intros v. induction q as [|p0 t IH]; intros l tk q1 l' H p Hin; cbn [contig_loop] in H.
+  - inversion H; subst. exact Hin.
+  - destruct (diffv v l (pseq p0) =? 0).
+    + destruct (contig_loop v t (sadd l (zlen (pbytes p0)))) as [[tk' q1'] l2] eqn:E. inversion H; subst.
+      right. eapply IH; eauto.
+    + inversion H; subst. exact Hin.
+Qed.
+
+Lemma covl_incl : forall S i a b x, (forall p, In p a -> In p b) -> covl S i a x -> covl S i b x.
+Proof. intros S i a b x H (p & o & Hin & Hp). exists p, o. split; [apply H; exact Hin|exact Hp]. Qed.
+
+(* the queue after sendToConnection of a container at offset a of length n, when the queue lay at or
+   beyond a + n: nothing held at or beyond the new delivery point e' is lost, nothing is invented, and
+   e' lies beyond everything contiguously held *)
+Lemma send_cover : forall S i c h used r0 sid nc a e',
+  zlen S < HIS -> cseq r0 = sq i a -> 0 <= a -> a + clen r0 <= zlen S ->
+  qok S i (a + clen r0) HIS (h_queue h) ->
+  sr_next (send fullv c h used r0 sid nc) = sq i e' -> a + clen r0 <= e' -> e' <= zlen S ->
+  let q1 := h_queue (sr_half (send fullv c h used r0 sid nc)) in
+  (forall x, covl S i (h_queue h) x -> e' <= x -> covl S i q1 x) /\
+  (forall x, covl S i q1 x -> covl S i (h_queue h) x) /\
+  (forall x, a + clen r0 <= x -> (forall y, a + clen r0 <= y <= x -> covl S i (h_queue h) y) -> x < e').
+Proof.
+  intros S i c h used r0 sid nc a e' HS Hcq Ha HaS Hq Hnx He1 He2 q1. subst q1.
+  rewrite send_queue. rewrite Hcq, sadd_sq, add_contiguous_sq_full.
+  assert (Hnx' : snd (contig_loop fullv (h_queue h) (sq i (a + clen r0))) = sq i e').
+  { rewrite <- Hnx. unfold send. rewrite Hcq, sadd_sq, add_contiguous_sq_full.
+    destruct (add_pending (h_saved h) (sq i a)) as [[[pre sl] sv1] reld].
+    destruct (contig_loop fullv (h_queue h) (sq i (a + clen r0))) as [[tk q1] nx].
+    match goal with |- context [if ?b then (length ?l, 0) else ?f] => destruct (if b then (length l, 0) else f) as [ndx kskip] end.
+    destruct (keep_conv fullv (skipn ndx (map CPage pre ++ r0 :: map CPage tk)) kskip) as [[sv2 alloc] pk].
+    reflexivity. }
+  destruct (contig_loop fullv (h_queue h) (sq i (a + clen r0))) as [[tk q1] nx] eqn:Ecl. cbn [snd fst] in *. subst nx.
+  pose proof (clen_nonneg r0).
+  destruct (contig_loop_cover S i (h_queue h) (a + clen r0) (a + clen r0) HIS HS Hq ltac:(lia) ltac:(lia) HIS_HI HS HaS
+              e' tk q1 Ecl He1 He2) as (C1 & C2).
+  split; [exact C1|]. split; [|exact C2].
+  intros x Hx. eapply covl_incl; [|exact Hx]. eapply contig_loop_incl; eauto.
 Qed.
